@@ -26,7 +26,7 @@ def boxsize(bodies):
     return max(BOX, 8. * max(b[7] for b in bodies))
 
 
-def make(rebound, mode, periodic, bodies, keep_sorted=0):
+def make(rebound, mode, periodic, bodies, keep_sorted=0, dtsign=1):
     sim = rebound.Simulation()
     if periodic:
         sim.configure_box(boxsize(bodies))
@@ -37,7 +37,7 @@ def make(rebound, mode, periodic, bodies, keep_sorted=0):
     sim.integrator = "leapfrog"
     sim.gravity = "none"
     sim.collision = mode
-    sim.dt = DT
+    sim.dt = DT * dtsign
     sim.collision_resolve_keep_sorted = keep_sorted
     for k, b in enumerate(bodies):
         sim.add(m=b[0], x=b[1], y=b[2], z=b[3], vx=b[4], vy=b[5], vz=b[6], r=b[7], hash=k + 1)
@@ -95,10 +95,11 @@ class Detect:
         self.rebound = rebound
 
     def __call__(self, task):
-        mode, periodic, bodies = task
+        mode, periodic, bodies = task[:3]
+        dtsign = task[3] if len(task) > 3 else 1
         rb.quiet()
         rebound = self.rebound
-        sim = make(rebound, mode, periodic, bodies)
+        sim = make(rebound, mode, periodic, bodies, dtsign=dtsign)
         got = []
 
         def rec(ptr, c):
@@ -125,8 +126,8 @@ class Detect:
         miss = must - gotp
         if miss:
             kind = "equal-radii" if len(set(b[7] for b in bodies)) == 1 else "unequal-radii"
-            V.append(("detect-missed:%s:%s:%s" % (mode, "periodic" if periodic else "open", kind),
-                      "pair(s) %s overlap while approaching (or their paths crossed) but were not handed to the resolver; handed %s [%s periodic=%s bodies(m,x,y,z,vx,vy,vz,r)=%s]" % (sorted(miss), sorted(gotp), mode, periodic, bodies)))
+            V.append(("detect-missed:%s:%s:%s%s" % (mode, "periodic" if periodic else "open", kind, ":backward" if dtsign < 0 else ""),
+                      "pair(s) %s overlap while approaching (or their paths crossed) but were not handed to the resolver; handed %s [%s periodic=%s dt=%+g bodies(m,x,y,z,vx,vy,vz,r)=%s]" % (sorted(miss), sorted(gotp), mode, periodic, DT * dtsign, bodies)))
         return V, len(must)
 
 
@@ -352,6 +353,24 @@ def detect_space(tier):
                     [1.0, -d / 2, 0.5, 0.5, 0.1, 0, 0, R1], [1.0, d / 2, 0.5, 0.5, -0.1, 0, 0, R2]]
             for perm in itertools.permutations(range(4)):
                 out.append([four[k] for k in perm])
+    # two fast bodies on crossing paths, each with a slow point-like companion 0.05 away (so both sit in small non-leaf cells far
+    # apart): the pair meets only through the swept paths of BOTH bodies
+    for speed in (3.1, 11.7, 37.3):            # (values that do not land on cell faces)
+        for gap in ((0.47, 0.83) if speed < 20 else (0.21, 0.29)):      # both bodies start inside the periodic box
+            d = speed * DT * gap
+            for rr in (0.2, 0.05):
+                out.append([[1.0, -d, 0.02, 0.0, speed, 0.0, 0.0, rr], [1e-9, -d - 0.05, 0.07, 0.03, 0.0, 0.0, 0.0, 0.0],
+                            [1.0, d, -0.02, 0.01, -speed, 0.0, 0.0, rr], [1e-9, d + 0.05, -0.06, 0.0, 0.0, 0.0, 0.0, 0.0]])
+                out.append([[1.0, -d, 0.02, 0.0, speed, 0.0, 0.0, rr], [1e-9, -d - 0.05, 0.07, 0.03, 0.0, 0.0, 0.0, 0.0],
+                            [1.0, 0.03, d, 0.01, 0.0, -speed, 0.0, rr], [1e-9, 0.0, d + 0.05, 0.0, 0.0, 0.0, 0.0, 0.0]])
+    # the same with companions that fly along (3 radii away, touching nobody): at the end of the step both bodies of the pair sit
+    # in small non-leaf cells, so the cell-opening radius of the tree walk decides
+    for speed in (1.3, 7.7, 23.1):
+        for rr in (0.3, 0.11):
+            for gap in (0.45, 0.12):
+              d = speed * DT * gap
+              out.append([[1.0, -d, 0.24, 0.21, speed, 0.0, 0.0, rr], [1.0, -d, 0.24 + 3 * rr, 0.21, speed, 0.0, 0.0, rr],
+                        [1.0, d, 0.15, 0.15, -speed, 0.0, 0.0, rr], [1.0, d, 0.15, 0.15 + 3 * rr, -speed, 0.0, 0.0, rr]])
     return out
 
 
@@ -376,6 +395,9 @@ def run(ctx):
         for periodic in (False, True):
             for b in space:
                 dt.append((mode, periodic, b))
+                if mode in ("line", "linetree"):
+                    # the swept-path criterion does not depend on the direction of time
+                    dt.append((mode, periodic, b, -1))
     dt = ctx.shuffled(dt)
     res = pool.run_tasks(Detect(rebound), dt, timeout=30, progress=lambda d, n: ctx.note("detection cases %d/%d" % (d, n)))
     nontrivial = 0
